@@ -17,6 +17,16 @@ CHECKS = {
             "Every cell of the declared product is executed on the real integrator (two chained calls each) and the property's own formula is re-evaluated in longdouble from the library's stage slopes: explicit residuals to a derived rounding bound, implicit residuals to the documented Newton tolerance, the increment against h*sum(b_i k_i), splitting steps against the drift/kick composition read from the coefficient list and mask. The solver's answers are scripted exhaustively (truthful / forced failure / lying success) to show an unsolved stage system is never accepted.",
             "Finite alphabets (6 rhs programs with known Lipschitz bounds, 3 times, 6 signed steps, 3 dtypes); rounding bound 64*eps*((1+L)*scale+|f|); MINPACK/LAPACK trusted.",
             "DESIGN.md 4/C02"),
+    "C10": ("exploration",
+            "exhaustive product enumeration (method x Hamiltonian x state lattice x signed h x state layout / kick mask x entry point) with the Jacobian of the real one-step map as oracle",
+            "For every cell the Jacobian M of the real one-step map is formed (exact columns for quadratic Hamiltonians, central differences otherwise) and M^T J M = J is checked; symmetric schemes are stepped h then -h; 4096-step energy runs compare the two halves; table identities (b_i a_ij + b_j a_ji = b_i b_j, palindromic splitting lists) are checked exactly. Masks are passed by the constructor and through OdeSystem.set_kick_vars.",
+            "Finite families (5 separable Hamiltonians, 3-point state lattice, 6 signed steps); finite-difference tolerances 1e-10 (longdouble, explicit) / 1e-7 (float64, implicit) with negative controls at 1e-5..6e-4.",
+            "DESIGN.md 4/C10"),
+    "C11": ("exploration",
+            "exhaustive enumeration of a polar grid of the closed left half-plane for the stability function of every implicit tableau, eigenvalues of A, and real implicit steps on y'=lambda*y over (radius, angle, sign convention, Jacobian source)",
+            "|R(z)| <= 1 is evaluated on 45 radii (1e-3..1e8) x 65 angles for all 16 implicit tableaux with a conditioned rounding bound, poles are excluded via the eigenvalues of A, and the real step on scalar and 2x2 damped-rotation blocks is compared with R(dT*lambda) and required not to increase |y|.",
+            "Grid result is extended to the half-plane by the maximum principle (no poles + bound on the boundary); steps that raise FailedToMeetTolerances are not accepted steps (counts reported).",
+            "DESIGN.md 4/C11"),
     "C17": ("exploration",
             "exhaustive enumeration of all strictly increasing arrays of length 1..7 over a 9-point grid x 21 queries (scalar and vector search, 4 container types) and of cubic/interval/evaluation-point lattices for the Hermite piece",
             "The statement's own finite quantifier is enumerated completely: 501 arrays x 21 queries x {float32, float64, longdouble, list} against min(searchsorted_left, n-1); Hermite pieces for 7 cubics x 20 ordered intervals x 37 points x scalar/array data x 3 dtypes against the cubic itself with a derived rounding bound. exhaustive=true.",
